@@ -123,7 +123,7 @@ func Value(t *rapid.T, ty *model.Type, o ValOpt) *model.Val {
 	switch ty.K {
 	case model.TNum:
 		if o.Clear {
-			return model.VNum(pick(t, "clearnum", []float64{0, 1, 2, 3, -1, 0.5, 1.5, 100, math.Inf(1), math.Inf(-1), 1e15, 9007199254740992, 9007199254740994, 9223372036854775808, 1e19, 1e20, 1e21, -9223372036854775808, 123456.789, 1e-3}))
+			return model.VNum(pick(t, "clearnum", []float64{0, 1, 2, 3, -1, 0.5, 1.5, 100, 9, 10, 5.5, 2.5, math.Inf(1), math.Inf(-1), 1e15, 9007199254740992, 9007199254740994, 9223372036854775808, 1e19, 1e20, 1e21, -9223372036854775808, 123456.789, 1e-3}))
 		}
 		x := Num(t)
 		if !o.NonFinite && (math.IsNaN(x) || math.IsInf(x, 0)) {
